@@ -648,6 +648,14 @@ class ExprMixin:
         d, r = self.callee_decl(n)
         args = n['inner'][1:]
         name = r.get('name', '')
+        if name == 'operator=' and d is not None and (d.get('isImplicit') or d.get('explicitlyDefaulted')):
+            # implicit / defaulted copy or move assignment of a record = C struct assignment
+            self.rules['implicit-assignment-as-struct-copy'] += 1
+            return '(%s = %s)' % (self.expr(args[0]), self.expr(args[1], rvalue=True))
+        if name == 'operator=' and d is None and len(args) == 2:
+            lt = self.etype(args[0])
+            if lt.kind in ('sv', 'opt', 'pair', 'vec', 'uset', 'umap'):
+                return '(%s = %s)' % (self.expr(args[0]), self.expr(args[1], rvalue=True))
         if d is not None and d.get('kind') == 'CXXMethodDecl' and not self.is_external(d):
             owner = self.owner_record(d)
             if owner is not None and self.record_mode(owner) == 'transparent':
